@@ -21,7 +21,7 @@ pub fn property() -> Property {
     Property {
         id: "C07",
         level: "exploration",
-        rule: "family `codec` (Lab-M): destinations (IPv4 octet classes; IPv6 ::, ::1, v4-mapped, full, zero runs; names of 1, 2, 63, 64, 253, 254, 255 bytes in LDH and UTF-8, names > 255 bytes which must be refused, names that look like addresses; ports 0, 1, 80, 255, 256, 443, 65535, random) through the real Client::create_proxy_stream on an in-memory session, a fragmenting pipe and the real server-side destination parser (H5), and reference-encoded destinations split across data frames at every position into the same parser; the client's bytes are also decoded by the reference. Family `resolve`: histories of resolve_host_with_cache(H, P) against a fake DNS (names with 1-3 loopback addresses, same host with other ports, other hosts, literal IPs, cache ageing within and beyond the TTL via H7). Family `dial` (Lab-S): request histories by name through the SOCKS5 front-end or the HTTP front-end (CONNECT, origin-form with Host and a URL of another listener in the query, absolute-form with '@other:port' in the path), real client and real server to listeners on distinct loopback addresses and ports. Non-trivial = one host requested with >= 2 ports inside the TTL, a name >= 254 bytes, an IPv6 destination, or a header split inside the address. Distinct = distinct serialized case. Family `tunnel` (shared with C15): UDP associations through the real client and server to a recording target on IPv4 / IPv6 loopback with a decoy socket and, in three cases of ten, a stray datagram from a third socket to the server's relay socket in mid-association - every datagram of the application must arrive at the requested target and nowhere else. Family `front` (Lab-S): 1-7 requests per case through the real SOCKS5 listener (ATYP 1/3/4), HTTP CONNECT, HTTP origin-form + Host and HTTP absolute-form, real client, TLS, to the reference server, which records the destination header of every stream, answers SYNACK and echoes; hosts: boundary and random IPv4/IPv6 (v4-mapped, link-local, all-ones), LDH names of 1, 2, 3, 63, 64, 127, 128, 129, 200, 253, 254, 255 and random lengths, digit-and-dot names; ports 1, 80, 255, 256, 443, 8080, 32767, 32768, 65280, 65535, random, or the scheme's default; delivery whole / byte at a time / generated cuts. Oracle: exactly one stream per request whose destination decodes (reference SOCKS address codec) to the requested host and port; bytes sent after the request come back unchanged. In the resolve family names move (the fake DNS, which answers with TTL 0 so that the resolver library caches nothing itself, changes its answer); the model keeps the age of each name's cache entry (ageing through the per-host hook) and the addresses the DNS gave when the entry was made: inside the 60 s lifetime an answer may come from the entry or from the current DNS data, beyond it only from the current data.",
+        rule: "family `codec` (Lab-M): destinations (IPv4 octet classes; IPv6 ::, ::1, v4-mapped, full, zero runs; names of 1, 2, 63, 64, 253, 254, 255 bytes in LDH and UTF-8, names > 255 bytes which must be refused, names that look like addresses; ports 0, 1, 80, 255, 256, 443, 65535, random) through the real Client::create_proxy_stream on an in-memory session, a fragmenting pipe and the real server-side destination parser (H5), and reference-encoded destinations split across data frames at every position into the same parser; the client's bytes are also decoded by the reference. Family `resolve`: histories of resolve_host_with_cache(H, P) against a fake DNS (names with 1-3 loopback addresses, same host with other ports, other hosts, literal IPs, cache ageing within and beyond the TTL via H7). Family `dial` (Lab-S): request histories by name through the SOCKS5 front-end or the HTTP front-end (CONNECT, origin-form with Host and a URL of another listener in the query, absolute-form with '@other:port' in the path), real client and real server to listeners on distinct loopback addresses and ports. Non-trivial = one host requested with >= 2 ports inside the TTL, a name >= 254 bytes, an IPv6 destination, or a header split inside the address. Distinct = distinct serialized case. Family `tunnel` (shared with C15): UDP associations through the real client and server to a recording target on IPv4 / IPv6 loopback with a decoy socket and, in three cases of ten, a stray datagram from a third socket to the server's relay socket in mid-association - every datagram of the application must arrive at the requested target and nowhere else. Family `front` (Lab-S): 1-7 requests per case through the real SOCKS5 listener (ATYP 1/3/4), HTTP CONNECT, HTTP origin-form + Host and HTTP absolute-form, real client, TLS, to the reference server, which records the destination header of every stream, answers SYNACK and echoes; hosts: boundary and random IPv4/IPv6 (v4-mapped, link-local, all-ones), LDH names of 1, 2, 3, 63, 64, 127, 128, 129, 200, 253, 254, 255 and random lengths, digit-and-dot names; ports 1, 80, 255, 256, 443, 8080, 32767, 32768, 65280, 65535, random, or the scheme's default; delivery whole / byte at a time / generated cuts. Oracle: exactly one stream per request whose destination decodes (reference SOCKS address codec) to the requested host and port; bytes sent after the request come back unchanged. In the resolve family names move (the fake DNS, which answers with TTL 0 so that the resolver library caches nothing itself, changes its answer); the model keeps the age of each name's cache entry (ageing through the per-host hook) and the addresses the DNS gave when the entry was made: inside the 60 s lifetime an answer may come from the entry or from the current DNS data, beyond it only from the current data. One dial request in four names a port of the (possibly cached) host where nothing listens: it must be refused and no listener may be dialled in its place.",
         assumptions: vec![
             "reference SOCKS address codec in this module; fake DNS in harness/src/lab_sock/dns.rs installed through the crate's public set_custom_dns_servers",
             "H7 ages cache entries (the cache uses std::time::Instant)",
